@@ -357,7 +357,7 @@ pub fn run(ctx: &mut Ctx) {
                 await without ?Send; the is_send witness under ?Send) must be rejected by rustc and are re-compiled alone before being believed; non-trivial = borrowed/generic return, ?Send, \
                 trait or impl-block input, or a negative probe; distinct = distinct program text"
         .into();
-    let n = ctx.n(300, 5000) as usize;
+    let n = ctx.n(1000, 8000) as usize;
     let tapes = crate::drive::gen_tapes(ctx.seed, 1200, n, TAPE_LEN);
     let mut cases: Vec<Case> = vec![];
     for tp in &tapes {
